@@ -731,6 +731,9 @@ def parse_file(stream: IO[str], context: ParseContext) -> List[Dict]:
             str(path),
             problem_mark.line + 1 if problem_mark else None,
         )
+    except ValueError as y:
+        # PyYAML's constructors raise plain ValueErrors, e.g. for the date 2020-13-45
+        raise exc.DataGenYamlSyntaxError(str(y), str(path))
     context.line_numbers.update(line_numbers)
 
     if not isinstance(data, list):
